@@ -23,7 +23,8 @@ REQUIRED_COUNTERS = {"tasks_compared": {"quick": 2000, "thorough": 40000},
                      "tasks_blocked_in_aexit": {"quick": 200, "thorough": 4000},
                      "nurseries_inside_acm": {"quick": 150, "thorough": 3000},
                      "stub_children_checked": {"quick": 500, "thorough": 10000},
-                     "pingpong_chains": {"quick": 8, "thorough": 24}}
+                     "pingpong_chains": {"quick": 8, "thorough": 24},
+                     "two_run_cases": {"quick": 2, "thorough": 4}}
 SHARD_TIMEOUT = {"quick": 400, "thorough": 5400}
 
 
@@ -299,5 +300,96 @@ def worker(spec):
             vis = [f.funcname for f in s.frames if not f.hide]
             if problems:
                 res.violation(kind="trio thread ping-pong", depth=d, problems=problems, visible=vis, interp=interp)
+    # ---- two Trio runs alive at once: a to_thread worker of run A calls into run B with an explicit
+    # token; the stack of the task in A must continue into the task of run B that serves the call
+    import threading as _threading
+    import time as _time
+
+    class LoopB(object):
+        def __init__(self):
+            self.token = None
+            self.ready = _threading.Event()
+            self.thread = _threading.Thread(target=lambda: trio.run(self._main), daemon=True)
+            self.thread.start()
+            self.ready.wait(30)
+
+        async def _main(self):
+            self.token = trio.lowlevel.current_trio_token()
+            self.stop = trio.Event()
+            self.release = trio.Event()
+            self.ready.set()
+            await self.stop.wait()
+
+    arrived = _threading.Event()
+    log2 = []
+
+    async def serve_in_b(loop_b):
+        log2.append("serve_in_b")
+        arrived.set()
+        await loop_b.release.wait()
+        return "served"
+
+    def worker_fn(loop_b):
+        log2.append("worker_fn")
+        return trio.from_thread.run(serve_in_b, loop_b, trio_token=loop_b.token)
+
+    async def hopper(loop_b):
+        log2.append("hopper")
+        return await trio.to_thread.run_sync(worker_fn, loop_b)
+
+    async def main_a(loop_b, out):
+        async with trio.open_nursery() as top:
+            top.start_soon(hopper, loop_b, name="hopper")
+            with trio.fail_after(30):
+                while not arrived.is_set():
+                    await trio.sleep(0.01)
+            settled = _threading.Event()
+            loop_b.token.run_sync_soon(settled.set)
+            with trio.fail_after(30):
+                while not settled.is_set():
+                    await trio.sleep(0.01)
+            await trio.testing.wait_all_tasks_blocked()
+            task = [t for t in top.child_tasks if t.name == "hopper"][0]
+            with warnings.catch_warnings(record=True) as w:
+                warnings.simplefilter("always")
+                out["stack"] = stackscope.extract(task)
+            out["warnings"] = [str(x.message)[:100] for x in w]
+            loop_b.token.run_sync_soon(loop_b.release.set)
+            top.cancel_scope.cancel() if False else None
+
+    for rep in range(spec["reps"]):
+        del log2[:]
+        arrived.clear()
+        loop_b = LoopB()
+        out = {}
+        try:
+            trio.run(main_a, loop_b, out)
+        except BaseException as e:  # noqa
+            res.inconclusive.append("two-run scenario raised %r" % (e,))
+            continue
+        finally:
+            try:
+                loop_b.token.run_sync_soon(loop_b.stop.set)
+            except Exception:
+                pass
+            loop_b.thread.join(10)
+        res.evaluations += 1
+        res.count("two_run_cases")
+        res.nontrivial("two-runs", rep)
+        s = out.get("stack")
+        problems = []
+        if s is None:
+            problems.append("no stack")
+        else:
+            got = [f.funcname for f in s.frames if f.funcname in ("hopper", "worker_fn", "serve_in_b")]
+            if got != log2:
+                problems.append("user frames %r != shadow call log %r (visible: %r)" % (
+                    got, log2, [f.funcname for f in s.frames if not f.hide]))
+            if s.error is not None:
+                problems.append("error %r" % (s.error,))
+            if out.get("warnings"):
+                problems.append("warning %r" % (out["warnings"][0],))
+        if problems:
+            res.violation(kind="trio: thread inside from_thread.run of another run", problems=problems, interp=interp)
     res.sample({"leg": "pingpong", "depths": list(range(0, spec["max_depth"] + 1))})
     return res
